@@ -32,6 +32,17 @@ type lndChain struct {
 	epochs   []*epochStream
 	activity atomic.Int64
 	infoLag  uint32 // GetInfo answers tip-infoLag (the node's view lags the notifier)
+	failReg  int    // the next failReg stream registrations fail (lnd unreachable)
+}
+
+func (l *lndChain) regFails() bool {
+	l.mu.Lock()
+	defer l.mu.Unlock()
+	if l.failReg > 0 {
+		l.failReg--
+		return true
+	}
+	return false
 }
 
 type confStream struct {
@@ -79,6 +90,9 @@ type lndNotifier struct {
 
 func (n *lndNotifier) RegisterConfirmationsNtfn(ctx context.Context, in *chainrpc.ConfRequest, _ ...grpc.CallOption) (chainrpc.ChainNotifier_RegisterConfirmationsNtfnClient, error) {
 	n.l.activity.Add(1)
+	if n.l.regFails() {
+		return nil, status.Error(codes.Unavailable, "lnd is not reachable")
+	}
 	// the watcher passes the txid in wire byte order
 	b := append([]byte{}, in.Txid...)
 	for i, j := 0, len(b)-1; i < j; i, j = i+1, j-1 {
@@ -94,6 +108,9 @@ func (n *lndNotifier) RegisterConfirmationsNtfn(ctx context.Context, in *chainrp
 
 func (n *lndNotifier) RegisterBlockEpochNtfn(ctx context.Context, in *chainrpc.BlockEpoch, _ ...grpc.CallOption) (chainrpc.ChainNotifier_RegisterBlockEpochNtfnClient, error) {
 	n.l.activity.Add(1)
+	if n.l.regFails() {
+		return nil, status.Error(codes.Unavailable, "lnd is not reachable")
+	}
 	s := &epochStream{ctx: ctx, ch: make(chan *chainrpc.BlockEpoch, 4096), last: in.Height, l: n.l}
 	n.l.mu.Lock()
 	n.l.epochs = append(n.l.epochs, s)
@@ -233,6 +250,11 @@ func TestC20LndWatcher(t *testing.T) {
 		}
 		ops = append(ops, "pre:"+pre)
 		_, start := c.Depth(txid)
+		if rapid.IntRange(0, 3).Draw(t, "firstRegistrationFails") == 0 {
+			l.failReg = 1
+			classes["registered-while-lnd-down"] = true
+			ops = append(ops, "first-registration-fails")
+		}
 		if mode == "confirmation" {
 			w.AddWaitForConfirmationTx("swap1", txid, 0, start, 504, []byte{0x00, 0x20})
 		} else {
@@ -241,7 +263,7 @@ func TestC20LndWatcher(t *testing.T) {
 		l.settle()
 		steps := rapid.IntRange(1, 10).Draw(t, "steps")
 		for i := 0; i < steps; i++ {
-			op := rapid.SampledFrom([]string{"mine", "mine", "mine", "broadcast", "reorg", "lag", "reregister"}).Draw(t, "op")
+			op := rapid.SampledFrom([]string{"mine", "mine", "mine", "broadcast", "reorg", "lag", "reregister", "reregister", "lnd-down"}).Draw(t, "op")
 			switch op {
 			case "mine":
 				n := rapid.SampledFrom([]uint32{1, 1, 2, 3, 140, 500, 860}).Draw(t, "n")
@@ -258,6 +280,23 @@ func TestC20LndWatcher(t *testing.T) {
 				l.reorged(uint32(d))
 				ops = append(ops, fmt.Sprintf("reorg(%d,%s)", d, fate))
 				classes["reorg"] = true
+			case "lnd-down":
+				// lnd is unreachable for the next subscription(s) - and the swap registers right then
+				l.mu.Lock()
+				l.failReg = rapid.IntRange(1, 2).Draw(t, "failRegistrations")
+				l.mu.Unlock()
+				mu.Lock()
+				if len(calls) >= allowed {
+					allowed++
+				}
+				mu.Unlock()
+				if mode == "confirmation" {
+					w.AddWaitForConfirmationTx("swap1", txid, 0, start, 504, []byte{0x00, 0x20})
+				} else {
+					w.AddWaitForCsvTx("swap1", txid, 0, start, 1008, []byte{0x00, 0x20})
+				}
+				classes["registered-while-lnd-down"] = true
+				ops = append(ops, "register-while-lnd-down")
 			case "lag":
 				l.mu.Lock()
 				l.infoLag = uint32(rapid.IntRange(0, 3).Draw(t, "lag"))
@@ -284,10 +323,39 @@ func TestC20LndWatcher(t *testing.T) {
 			}
 			l.settle()
 		}
+		// closure: lnd is reachable again, the swap registers once more (as a recovery or a late cancel
+		// does) and the chain grows past every limit: a csv watch of an output on the best chain must
+		// have reported by then
+		l.mu.Lock()
+		l.failReg, l.infoLag = 0, 0
+		l.mu.Unlock()
+		c.Broadcast(txid)
+		c.Mine(1)
+		l.pump()
+		l.settle()
+		mu.Lock()
+		if len(calls) >= allowed {
+			allowed++
+		}
+		mu.Unlock()
+		if mode == "confirmation" {
+			w.AddWaitForConfirmationTx("swap1", txid, 0, start, 504, []byte{0x00, 0x20})
+		} else {
+			w.AddWaitForCsvTx("swap1", txid, 0, start, 1008, []byte{0x00, 0x20})
+		}
+		l.settle()
+		c.Mine(1010)
+		l.pump()
+		l.settle()
 		desc := fmt.Sprintf("mode=%s start=%d ops=%v", mode, start, ops)
 		mu.Lock()
 		got := append([]cb{}, calls...)
 		mu.Unlock()
+		if len(got) == 0 {
+			confs, tip := c.Depth(txid)
+			col.Violation(t, "C20/lnd/"+mode+"-never-reported", "%s: the watched transaction is %d deep at tip %d, lnd is reachable and the swap registered again, but nothing was ever reported", desc, confs, tip)
+			return
+		}
 		nConf, nCsv := 0, 0
 		for _, k := range got {
 			switch k.kind {
